@@ -21,7 +21,7 @@ def f64(x):
 
 def cell(rnd, ty):
     if ty == "str":
-        return rnd.randrange(8)
+        return rnd.randrange(14)
     if ty == "float64":
         return f64(rnd.choice([0.0, -0.0, 1.5, -2.25, 1e300, float("inf"), 5e-324, rnd.uniform(-9, 9)]))
     if ty == "bool":
